@@ -13,6 +13,8 @@ import (
 	"strings"
 	"sync"
 	"time"
+
+	"github.com/fufuok/cache/internal/vshim/sched"
 )
 
 // ---- command line context ----
@@ -159,6 +161,15 @@ func workerMain(rc *runCtx) {
 		if rc.Tier == "thorough" {
 			maxStates, fb = 3_000_000, 3
 		}
+		if sched.RaceBuild {
+			// under the race detector an execution costs ~10x more; a race is a property of the
+			// happens-before order of an execution, so path coverage matters more than the number of
+			// orderings: smaller unbounded cap, then all schedules with <= 1 (thorough: 2) preemptions
+			maxStates, fb = 40_000, 1
+			if rc.Tier == "thorough" {
+				maxStates, fb = 400_000, 2
+			}
+		}
 		var st *ExploreStats
 		if scs[idx].Seq != nil {
 			st = ExploreSeq(scs[idx].Seq, time.UnixMilli(dl))
@@ -192,6 +203,11 @@ func runE1(rc *runCtx, scs []*Scenario) *e1Summary {
 	sum := &e1Summary{Stats: make([]*ExploreStats, len(scs)), Exhaustive: true}
 	deadline := rc.t0.Add(rc.Budget)
 	self, _ := os.Executable()
+	raceDir := ""
+	if sched.RaceBuild {
+		raceDir, _ = os.MkdirTemp("", "verif-race")
+		defer os.RemoveAll(raceDir)
+	}
 	nw := rc.Workers
 	if nw > len(scs) {
 		nw = len(scs)
@@ -206,6 +222,9 @@ func runE1(rc *runCtx, scs []*Scenario) *e1Summary {
 			args := []string{"-prop", rc.Prop, "-tier", rc.Tier, "-worker"}
 			cmd := exec.Command(self, args...)
 			cmd.Env = append(os.Environ(), "GOMAXPROCS=2")
+			if sched.RaceBuild {
+				cmd.Env = append(cmd.Env, "GORACE=halt_on_error=0 log_path="+raceDir+"/race", "VERIF_RACE_LOG="+raceDir+"/race")
+			}
 			cmd.Stderr = os.Stderr
 			stdin, _ := cmd.StdinPipe()
 			stdout, _ := cmd.StdoutPipe()
